@@ -98,7 +98,7 @@ def RInv (s : RSt) : Prop :=
   (s.freed = false → s.refcount = s.holds.length + s.transit) ∧ (s.freed = true → s.holds = [] ∧ s.transit = 0) ∧
     s.useAfterFree = false
 
-theorem rstep_inv (cfg : RCfg) (hc : cfg.increfBeforeSend = true) (s : RSt) (a : RAct) (h : RInv s) : RInv (rstep cfg s a) := by
+theorem rstep_inv (cfg : RCfg) (hc : cfg.increfBeforeSend = true) (hk : cfg.recvKnownDecref = true) (s : RSt) (a : RAct) (h : RInv s) : RInv (rstep cfg s a) := by
   obtain ⟨h1, h2, h3⟩ := h
   cases hf : s.freed with
   | true =>
@@ -113,7 +113,7 @@ theorem rstep_inv (cfg : RCfg) (hc : cfg.increfBeforeSend = true) (s : RSt) (a :
       · simp [RInv, hf, h3, hr]; omega
       · exact ⟨h1, h2, h3⟩
     | recv t =>
-      simp only [rstep]
+      simp only [rstep, hk]
       split
       · exact ⟨h1, h2, h3⟩
       · split
@@ -136,21 +136,22 @@ theorem rstep_inv (cfg : RCfg) (hc : cfg.increfBeforeSend = true) (s : RSt) (a :
           exact ⟨List.eq_nil_of_length_eq_zero hz, by omega⟩
       · exact ⟨h1, h2, h3⟩
 
-theorem rrun_inv (cfg : RCfg) (hc : cfg.increfBeforeSend = true) :
+theorem rrun_inv (cfg : RCfg) (hc : cfg.increfBeforeSend = true) (hk : cfg.recvKnownDecref = true) :
     ∀ (acts : List RAct) (s : RSt), RInv s → RInv (rrun cfg acts s) := by
   intro acts
   induction acts with
   | nil => intro s h; exact h
-  | cons a acts ih => intro s h; exact ih _ (rstep_inv cfg hc s a h)
+  | cons a acts ih => intro s h; exact ih _ (rstep_inv cfg hc hk s a h)
 
 /-- ★ no free while any thread can reach the object: with the reference taken before sending, at every point of every
     interleaving of send / receive / drop / sweep steps of any number of threads, the count equals the number of holders
     (threads with a table entry + copies in transit); the object is freed only when there is none; nobody uses it after. -/
-theorem refcount_ge_reachers (cfg : RCfg) (hc : cfg.increfBeforeSend = true) (acts : List RAct) :
+theorem refcount_ge_reachers (cfg : RCfg) (hc : cfg.increfBeforeSend = true) (hk : cfg.recvKnownDecref = true)
+    (acts : List RAct) :
     let s := rrun cfg acts {}
     (s.freed = false → s.refcount = s.holds.length + s.transit) ∧ (s.freed = true → s.holds = [] ∧ s.transit = 0) ∧
       s.useAfterFree = false :=
-  rrun_inv cfg hc acts {} (by simp [RInv])
+  rrun_inv cfg hc hk acts {} (by simp [RInv])
 
 /-- ... and it IS freed by the sweep of the last holder once that thread no longer references it. -/
 theorem refcount_freed_after_last_drop (cfg : RCfg) (s : RSt) (t : Nat) (h : RInv s) (hf : s.freed = false)
@@ -162,11 +163,19 @@ theorem refcount_freed_after_last_drop (cfg : RCfg) (s : RSt) (t : Nat) (h : RIn
 /-- without the incref before sending ("death in transit"): thread 0 sends, drops its reference and collects: the object is
     freed while a copy of the pointer is still inside a message. -/
 theorem refcount_counterexample :
-    let s := rrun ⟨false⟩ [.send 0, .drop 0, .sweep 0] {}
+    let s := rrun ⟨false, true⟩ [.send 0, .drop 0, .sweep 0] {}
     s.freed = true ∧ s.transit = 1 := by
   decide
 
-example : (rrun ⟨true⟩ [.send 0, .drop 0, .sweep 0, .recv 1, .drop 1, .sweep 1] {}).freed = true := by decide
-example : (rrun ⟨true⟩ [.send 0, .drop 0, .sweep 0, .recv 1] {}).freed = false := by decide
+/-- if a thread that already holds the object does not drop the in-transit reference when it receives it again (e.g. the
+    "known?" test looks at the entry's value, which is `false` between mark phases): thread 0 sends the object to itself,
+    drops it and collects - nobody holds it, nothing is in transit, and it is never freed. -/
+theorem refcount_leak_counterexample :
+    let s := rrun ⟨true, false⟩ [.send 0, .recv 0, .drop 0, .sweep 0] {}
+    s.freed = false ∧ s.holds = [] ∧ s.transit = 0 ∧ s.refcount = 1 := by
+  decide
+
+example : (rrun ⟨true, true⟩ [.send 0, .drop 0, .sweep 0, .recv 1, .drop 1, .sweep 1] {}).freed = true := by decide
+example : (rrun ⟨true, true⟩ [.send 0, .drop 0, .sweep 0, .recv 1] {}).freed = false := by decide
 
 end JanetModel.Props.C08
